@@ -574,6 +574,74 @@ func scenario(x *explore.X, maxLen int) {
 	}
 }
 
+// ---- a PROXY-protocol listener: connections that never get past their header are accepted sockets like any other ----
+
+// ppScenario: a PROXY-protocol listener (header time-out 3 s). In any order: a client that sends a complete header
+// and performs an exchange, and a client that stalls in its header (silent, 5 or 20 bytes) until the time-out cuts
+// it. Every accepted connection is counted as closed exactly once: the gauges follow the sockets that are open.
+func ppScenario(x *explore.X) {
+	s := &st{x: x, hops: map[string]*world.Hop{}, sent: map[*world.Peer][]string{}, led: ledger{totals: map[string]int{}, any: map[string]int{}}}
+	s.pki = world.NewPKI("harness CA")
+	w, err := world.Start(world.Options{BasicAuth: "u:p", ProxyProtocol: true, ProxyProtoTO: 3 * time.Second, TransportCAPEM: s.pki.CAPEM})
+	if err != nil {
+		x.Failf("harness/start", "%v", err)
+		return
+	}
+	s.w = w
+	const ppHeader = "PROXY TCP4 192.0.2.7 198.51.100.1 40000 3128\r\n"
+	var names []string
+	n := 1 + x.ChooseFree("clients-1", 3)
+	for i := 0; i < n && !x.Failed(); i++ {
+		k := x.ChooseFree(fmt.Sprintf("client%d", i), 4) // 0 complete header + exchange, 1 silent, 2 five header bytes, 3 twenty header bytes
+		c := s.client()
+		if c == nil {
+			return
+		}
+		switch k {
+		case 0:
+			names = append(names, "served")
+			c.Send([]byte(ppHeader))
+			s.exchange("ok", c)
+			c.Close()
+		default:
+			cut := []int{0, 0, 5, 20}[k]
+			names = append(names, fmt.Sprintf("stalls-after-%d-header-bytes", cut))
+			if cut > 0 {
+				c.Send([]byte(ppHeader[:cut]))
+			}
+			world.Settle(4 * time.Second) // past the header time-out: the proxy gives the connection up
+			if st := c.C.Status(); !st.PeerClosed && !st.EOF && !st.Reset {
+				x.Failf("harness/not-cut", "a client stalling in its PROXY header is still connected 4 s later (time-out 3 s)")
+			}
+			c.Close()
+		}
+		world.Settle(time.Second)
+		s.checkMetrics(fmt.Sprintf("after client %d (%s)", i+1, strings.Join(names, ", ")), nil)
+	}
+	for _, c := range s.conns {
+		c.Close()
+	}
+	if err := w.Stop(); err != nil {
+		x.Failf("shutdown", "%v", err)
+	}
+	for _, h := range s.hops {
+		h.Close()
+	}
+	world.Settle(time.Second)
+	if !x.Failed() {
+		m, _ := w.Metrics()
+		for k, v := range m {
+			if (strings.Contains(k, "cx_active") || strings.Contains(k, "in_flight")) && v != 0 {
+				x.Failf("gauge-not-zero-at-end", "after everything was closed %s = %v (clients %v)", k, v, names)
+			}
+		}
+	}
+	x.Outcome(strings.Join(names, ","))
+	if l := world.Leaks(); l != "" {
+		x.Failf("goroutine-leak", "%s", l)
+	}
+}
+
 // ---- byte counters and close-once at the Listener / Dialer API ---------------------------------------
 
 // failingReader is a source that ends with an error instead of EOF.
@@ -711,6 +779,7 @@ func TestC13(t *testing.T) {
 	}
 	s.Add(explore.Scenario{Name: "concurrent-close", Remote: true, MaxDev: map[string]int{"quick": 2, "thorough": 3},
 		Run: func(x *explore.X) { closeOnceScenario(t, x) }})
+	s.Add(explore.Scenario{Name: "proxy-protocol-listener", Remote: true, Run: func(x *explore.X) { world.Run(t, x, func() { ppScenario(x) }) }})
 	s.Add(explore.Scenario{Name: "api-counters", Remote: true, Run: func(x *explore.X) { world.Run(t, x, func() { apiScenario(x) }) }})
 	s.Main()
 }
